@@ -1,3 +1,6 @@
+\* The same model with the repairable quirks switched off (O_TRUNC on
+\* create, stale old/ removed first): NotificationParsable and
+\* InterruptedWriteNeverBlocks hold; only the reuse of a stale tmp-N remains.
 CONSTANTS
   Pubs <- PubsOne
   Uris <- UrisOneX
@@ -7,23 +10,20 @@ CONSTANTS
   MaxNr = 2
   MinAge = "zero"
   MaxAge = "inf"
-  MaxSerial = 4
+  MaxNrEquality = FALSE
+  MaxSerial = 3
   MaxSession = 2
   DeltaChoices <- Deltas1
+  TruncateOnCreate = TRUE
+  RemoveOldFirst = TRUE
   MaxFaults = 2
   Depth = 99
   FaultOdds = 1
 SPECIFICATION MCSpec
 CONSTRAINT RBound
 VIEW RView
-INVARIANT RTypeOK
-INVARIANT NotificationRefsExist
-INVARIANT SnapshotIsStateAtSerial
-INVARIANT ClientCatchesUp
-INVARIANT DeltasContiguousOnDisk
-INVARIANT DeltasContiguousToCurrent
+INVARIANT Inv11
+INVARIANT DeltasBoundedOnDisk
 PROPERTY DiskFollowsLogical
 PROPERTY WriteOk
-PROPERTY SerialPlusOne
-PROPERTY SessionOnlyOnReset
 CHECK_DEADLOCK FALSE
